@@ -5,7 +5,7 @@ executed and the language of possible matches of the emitted regex in every cont
 specification language 'integer part accepted by the corresponding Integer pattern (or none when start is 0) . fraction
 of min..max digits' by regular-language inclusion in both directions.  Argument validation: bounded sample."""
 import random
-from .. import lang, rx2smt as R
+from .. import lang, vcrun, rx2smt as R
 from ..common import native, SEED
 from specs.build import B
 from specs import numerals
@@ -107,6 +107,8 @@ def run(rep, tier):
                         "evaluations": len(jobs) + len(bad), "distinct_nontrivial": len(jobs),
                         "rule": "distinct (class, start, end, min, max, is_extensible) with a specification language"})
     rep.extra["translator_crosscheck"] = xc
+    # argument validation of the template constructor, for ALL integers and every other argument kind (VCs)
+    vcrun.run_functions(rep, ["pregex.meta.essentials.__Decimal.__init__"], tier)
     rep.trusted += ["R3, R4, R6, R7", "rx2smt translator (cross-checked against CPython each run)", "z3 regex theory and the "
                     "derivative-product procedure (must agree)", "specs/numerals.py"]
     rep.assumptions += ["PositiveDecimal and Decimal(include_sign=True): their sign rules are not documented precisely enough to "
